@@ -170,11 +170,29 @@ def run(ctx):
                 if how != "write" and b.dominates(query_target, bb):
                     fr |= set(proj_fields(p))
     generic = bool(visit_calls)
+    # with a generic traversal, the per-query predicate (the Visitor impl and what it calls) must itself look at locks / into / Insert / Update
+    vis_fns = {n for n in cls_fns if n.startswith("<") and "sqlparser::ast::visitor::Visitor>::" in n}
+    vis_closure = set()
+    for n in vis_fns:
+        vis_closure |= {m for m in F.reachable_fns([n]) if m in F.bodies}
+    if generic:
+        vfr = set()
+        vvariants = set()
+        for n in vis_closure:
+            vb = F.body(n)
+            vfr |= fields_read(vb)
+            for sw2 in switches(vb):
+                dd = sw2.discr()
+                if dd and dd[0].endswith("query::SetExpr"):
+                    vvariants |= {v for v, t in dd[2].items() if t != dd[3]}
+        nested_fr, nested_variants = vfr, vvariants
+    else:
+        nested_fr, nested_variants = fr, variants
     r2.note("classifier functions: %s; generic Visit traversal: %s; fields read: %s; SetExpr arms: %s" % (sorted(x.split("::")[-1] for x in cls_fns), generic, sorted(fr & {"locks", "into", "with", "body", "cte_tables", "left", "right"}), sorted(variants)))
     r2.check(bool(cls_fns), "classifier", "classifier functions found: %s" % sorted(x.split("::")[-1] for x in cls_fns), "no read/write classifier reachable from the Query arm of infer")
-    r2.check("locks" in fr, "field:Query.locks", "row-lock clauses (FOR UPDATE/SHARE) are inspected", "Query.locks is never read: SELECT ... FOR UPDATE is classified as a plain read")
-    r2.check("into" in fr, "field:Select.into", "SELECT INTO is inspected", "Select.into is never read: `SELECT ... INTO newtable` (creates a table) is classified as a plain read and routed to a replica")
-    r2.check({"Insert", "Update"} <= variants, "variants:SetExpr::Insert/Update", "data-modifying query bodies (SetExpr::Insert/Update) are recognised", "SetExpr::Insert/Update bodies are not recognised (%s)" % sorted(variants))
+    r2.check("locks" in fr and "locks" in nested_fr, "field:Query.locks", "row-lock clauses (FOR UPDATE/SHARE) are inspected", "Query.locks is never read: SELECT ... FOR UPDATE is classified as a plain read")
+    r2.check("into" in nested_fr, "field:Select.into", "SELECT INTO is inspected", "Select.into is never read: `SELECT ... INTO newtable` (creates a table) is classified as a plain read and routed to a replica")
+    r2.check({"Insert", "Update"} <= nested_variants, "variants:SetExpr::Insert/Update", "data-modifying query bodies (SetExpr::Insert/Update) are recognised", "SetExpr::Insert/Update bodies are not recognised (%s)" % sorted(variants))
     r2.check(generic or ("with" in fr and "cte_tables" in fr and self_rec), "nested:with",
              "CTEs are covered (%s)" % ("sqlparser Visit traversal" if generic else "reads Query.with and recurses"),
              "Query.with is never inspected: `WITH t AS (INSERT/UPDATE ... RETURNING *) SELECT ...` is classified as a plain read and routed to a replica")
@@ -271,6 +289,9 @@ def run(ctx):
                         # second operand: the captured `role` parameter of get
                         up = [oo for oo in origins(cb, ec.args[1]) if oo.kind in ("place", "param") and oo.what == 1]
                         okf = okf and bool(up)
+                        # the closure's value is exactly that comparison (no `|| other` disjunct)
+                        d0 = cb.defs().get(0, [])
+                        okf = okf and len(d0) == 1 and d0[0][0] == "call" and d0[0][2].block == ec.block
         r5.check(okf, "filter:role", "candidates = addresses.filter(address.role == requested role)", "the candidate list is no longer filtered by `address.role == role` (a server of the wrong role can be substituted)")
         eqb = ctx.body(ROLE_OPT_EQ, r5)
         if eqb:
